@@ -96,6 +96,7 @@ TRes(o, e) == <<"res", o, e>>
 TColor == TEnum("Color")
 TP == TStruct("P")   TQ == TStruct("Q")   TS == TStruct("S")
 TE == TStruct("Emp") TN == TStruct("Nest")
+TSs == TStruct("Ss") TSo == TStruct("So")
 
 EnumDefs == [Color |-> <<"Red", "Green", "Blue">>]
 
@@ -107,8 +108,11 @@ StructDefs ==
    Q    |-> << <<"b", TBool>>, <<"a", TInt>> >>,
    S    |-> << <<"a", TInt>>, <<"b", TBool>>, <<"s", TStr>>, <<"o", TOpt(TInt)>> >>,
    Emp  |-> << >>,
-   Nest |-> << <<"p", TP>>, <<"c", TColor>> >>]
-StructOrder == <<"P", "Q", "S", "Emp", "Nest">>      \* order of definition in the document
+   Nest |-> << <<"p", TP>>, <<"c", TColor>> >>,
+   \* Ss and So each hold one field of S: with P they compose S from three sources
+   Ss   |-> << <<"s", TStr>> >>,
+   So   |-> << <<"o", TOpt(TInt)>> >>]
+StructOrder == <<"P", "Q", "S", "Emp", "Nest", "Ss", "So">>      \* order of definition in the document
 
 Range(s) == {s[i] : i \in DOMAIN s}
 FieldNames(sn) == {f[1] : f \in Range(StructDefs[sn])}
@@ -471,7 +475,10 @@ PatsOk(pats, st0) ==
                 \/ \E i \in DOMAIN flat : flat[i][1] = "pb" /\ flat[i][2] = var
                 \/ LET c == Card(IF var = "ok" THEN st[2] ELSE st[3]) IN
                    c >= 0 /\ c = Cardinality({i \in DOMAIN flat : PatVariant(flat[i]) = var})
-        \/ (Card(st) >= 0 /\ Card(st) <= Len(flat))
+        \* counting patterns against the number of values only makes sense when every pattern is
+        \* a distinct literal: not for optionals/results, whose binding patterns cover a whole
+        \* variant (the compiler counted them: finding C24:match-bindings-counted-as-exhaustive)
+        \/ (st[1] \notin {"opt", "res"} /\ Card(st) >= 0 /\ Card(st) <= Len(flat))
   IN /\ st # TErr
      /\ Len(pats) > 0
      /\ \A i, j \in DOMAIN flat : i # j => flat[i] # flat[j]
@@ -627,7 +634,7 @@ BodyOk(body, ctx, frt) == TypeStmts(body, 1, ctx, frt) # <<TErr>> /\ HasReturn(S
 Ctx0 == << <<"x", TInt>>, <<"y", TInt>>, <<"p", TBool>>, <<"q", TBool>>, <<"s", TStr>>,
            <<"i", TId>>, <<"j", TId>>, <<"c", TColor>>, <<"o", TOpt(TInt)>>,
            <<"r", TRes(TInt, TStr)>>, <<"u", TP>>, <<"w", TS>>, <<"n", TN>>, <<"m", TOpt(TP)>>,
-           <<"k", TE>>, <<"g", TQ>> >>
+           <<"k", TE>>, <<"g", TQ>>, <<"e", TSs>>, <<"f", TSo>> >>
 
 IntDom == <<I(0), I(1), I(-1), MINI, IV(-1, 1), IV(1, -2), MAXI>>
 Dom(t) ==
@@ -645,6 +652,8 @@ Dom(t) ==
     [] t = TOpt(TP) -> <<VNone, VSome(VP(I(0), TRUE)), VSome(VP(MAXI, FALSE))>>
     [] t = TE -> <<VStruct("Emp", <<>>)>>
     [] t = TQ -> <<VStruct("Q", ("a" :> I(0)) @@ ("b" :> VT)), VStruct("Q", ("a" :> MAXI) @@ ("b" :> VF))>>
+    [] t = TSs -> <<VStruct("Ss", "s" :> VStr("ab")), VStruct("Ss", "s" :> VStr(""))>>
+    [] t = TSo -> <<VStruct("So", "o" :> VSome(I(-1))), VStruct("So", "o" :> VNone)>>
 
 RECURSIVE VarsOf(_)
 VarsOf(n) ==
@@ -785,7 +794,8 @@ Prods(t, ctx, d, frt) ==
         \cup {N("block", 0, <<Stmts(<<N("dassert", 0, <<H(TBool)>>)>>), H(t)>>)}
         \cup (IF TOpt(t) \in AllTypes THEN {N("coalesce", 0, <<HX(TOpt(t)), H(t)>>)} ELSE {})
         \cup UNION {{N("dot", StructDefs[sn][i][1], <<HX(TStruct(sn))>>) :
-                       i \in {i \in DOMAIN StructDefs[sn] : StructDefs[sn][i][2] = t}} : sn \in DOMAIN StructDefs}
+                       i \in {i \in DOMAIN StructDefs[sn] : StructDefs[sn][i][2] = t}} :
+                    sn \in {sn \in DOMAIN StructDefs : TStruct(sn) \in AllTypes}}
         \cup {Call(f, [i \in DOMAIN Funcs[f].params |-> H(Funcs[f].params[i][2])]) :
                 f \in {f \in DOMAIN Funcs : Funcs[f].ret = t}}
         \cup (IF Effects THEN {Ffi(f, [i \in DOMAIN Ffis[f].args |-> H(Ffis[f].args[i])]) :
@@ -819,6 +829,13 @@ Prods(t, ctx, d, frt) ==
           [] t = TS ->
                {N("struct", <<"S", <<"s", "o", "a", "b">>, <<>>>>, <<H(TStr), H(TOpt(TInt)), H(TInt), H(TBool)>>)}
                \cup {N("struct", <<"S", <<"o", "s">>, <<sv[2]>>>>, <<H(TOpt(TInt)), H(TStr)>>) : sv \in VarsIn(TP, ctx)}
+               \* composition from two and three sources (in both orders)
+               \cup (IF CtxHas(ctx, "u") /\ CtxHas(ctx, "e") /\ CtxHas(ctx, "f")
+                     THEN {N("struct", <<"S", <<>>, srcs>>, <<>>) :
+                             srcs \in {<<"u", "e", "f">>, <<"f", "u", "e">>, <<"e", "f", "u">>}}
+                          \cup {N("struct", <<"S", <<"s">>, srcs>>, <<H(TStr)>>) : srcs \in {<<"u", "f">>, <<"f", "u">>}}
+                          \cup {N("struct", <<"S", <<"b", "a">>, <<"f", "e">>>>, <<H(TBool), H(TInt)>>)}
+                     ELSE {})
           [] t = TN -> {N("struct", <<"Nest", <<"p", "c">>, <<>>>>, <<H(TP), H(TColor)>>)}
           [] OTHER -> {}
       (* programs the compiler (today) accepts although they are outside the type system: an arm
@@ -830,6 +847,10 @@ Prods(t, ctx, d, frt) ==
                   sh \in QuirkShapes(st, ctx)} : st \in MatchTypes}
         \cup {N("dot", StructDefs["P"][i][1], <<Var("g0")>>) :
                 i \in {i \in DOMAIN StructDefs["P"] : CtxHas(ctx, "g0") /\ StructDefs["P"][i][2] = t}}
+        \* three binding arms for the three values of option[bool], no None arm
+        \cup {N("match", sh, <<HX(TOpt(TBool))>> \o [i \in DOMAIN sh |-> HN(t, ArmCtx(sh[i], TOpt(TBool), ctx))]) :
+                sh \in {<<PPats(<<PB("some", Fresh(ctx))>>), PPats(<<PB("some", Fresh(ctx) \o "b")>>),
+                          PPats(<<PB("some", Fresh(ctx) \o "c")>>)>>}}
         \cup (IF CtxHas(ctx, "g0") /\ t = TInt
               THEN {Call("saturating_add", <<N("dot", "a", <<Var("g0")>>), H(TInt)>>)} ELSE {})
         \cup (IF CtxHas(ctx, "g0") /\ t = TBool THEN {N("not", 0, <<N("dot", "b", <<Var("g0")>>)>>)} ELSE {})
@@ -871,6 +892,7 @@ Prods(t, ctx, d, frt) ==
 (* statement-list templates for a function returning frt: a list that always ends in a return *)
 SProds(frt, ctx, d, ed, w) ==
   LET E(t1) == Hole(t1, ctx, ed, frt, "f")
+      EN(t1) == Hole(t1, ctx, ed, frt, "n")
       ES(t1, sh) == Hole(t1, ctx, ed, frt, IF BindingFirst(sh) THEN "x" ELSE "f")
       v == Fresh(ctx)
       K(c1) == SHole(frt, c1, d - 1, ed, w)           \* continuation of this list
@@ -884,6 +906,10 @@ SProds(frt, ctx, d, ed, w) ==
   \cup {<<N("ifs", FALSE, <<E(TBool), Stmts(<<B(ctx)>>)>>), K(ctx)>>}
   \cup {<<N("ifs", FALSE, <<E(TBool), Stmts(<<N("let", v, <<E(TInt)>>)>>)>>), K(ctx)>>}
   \cup {<<N("ifs", TRUE, <<E(TBool), Stmts(<<B(ctx)>>), E(TBool), Stmts(<<B(ctx)>>), Stmts(<<B(ctx)>>)>>)>>}
+  \* else-if chains *without* a final else whose earlier bodies fall through: after a taken
+  \* branch the later conditions and bodies must not run
+  \cup {<<N("ifs", FALSE, <<E(TBool), Stmts(<<>>), E(TBool), Stmts(<<B(ctx)>>)>>), K(ctx)>>}
+  \cup {<<N("ifs", FALSE, <<EN(TBool), Stmts(<<>>), EN(TBool), Stmts(<<>>), E(TBool), Stmts(<<B(ctx)>>)>>), K(ctx)>>}
   \cup UNION {{<<N("matchs", sh, <<ES(st, sh)>> \o [i \in DOMAIN sh |-> Stmts(<<B(ArmCtx(sh[i], st, ctx))>>)])>> :
                  sh \in MatchShapes(st, ctx)} : st \in MatchTypes}
   \cup UNION {{<<N("matchs", sh, <<ES(st, sh)>> \o [i \in DOMAIN sh |->
